@@ -42,6 +42,8 @@ type Conf struct {
 	InputSeeds          []string `json:"input_seeds"`
 	// MinSpaceRequired: --min-space-required in GiB (0 = the harness default of 0.001, so that a sandbox disk never pauses a run)
 	MinSpaceRequired float64 `json:"min_space_required,omitempty"`
+	// WARCTempDir: --warc-temp-dir ("" = the default, <job>/temp)
+	WARCTempDir string `json:"warc_temp_dir,omitempty"`
 }
 
 func (c Conf) String() string {
@@ -95,6 +97,7 @@ func (c Conf) Build() *config.Config {
 	if c.MinSpaceRequired > 0 {
 		cfg.MinSpaceRequired = c.MinSpaceRequired
 	}
+	cfg.WARCTempDir = c.WARCTempDir
 	return cfg
 }
 
@@ -155,6 +158,50 @@ type ChildSpec struct {
 	// PwriteLog: the child runs under strace, which logs every pwrite64 call to that file (to count them).
 	KillAtPwrite int    `json:"kill_at_pwrite,omitempty"`
 	PwriteLog    string `json:"pwrite_log,omitempty"`
+	// Footprint (drain mode): when the work is done and before the stop, idle connections are closed, the process is
+	// given time to settle (goroutine count unchanged for 600 ms, at most 15 s) and an event line
+	// "footprint goroutines=<n> fds=<n> tempfiles=<n> settled=<bool>" is written.
+	Footprint bool `json:"footprint,omitempty"`
+	// MinSpaceAfterStart > 0: --min-space-required is set to this value (GiB) as soon as controler.Start() has returned
+	// (for the running guard this is the job's volume filling up to below the threshold after an admitted start).
+	MinSpaceAfterStart float64 `json:"min_space_after_start,omitempty"`
+	// PauseProbeMS > 0 (drain mode): that long after the start an event line "pause-probe paused=<bool>" is written.
+	PauseProbeMS int `json:"pause_probe_ms,omitempty"`
+}
+
+// BeforeFootprint is installed by harnesses: called before the footprint is taken (closes idle connections).
+var BeforeFootprint func()
+
+// footprint: goroutines, open file descriptors, files under the job's temp directory.
+func (c *childState) footprint() {
+	if BeforeFootprint != nil {
+		BeforeFootprint()
+	}
+	last, since, settled := -1, time.Now(), false
+	for end := time.Now().Add(15 * time.Second); time.Now().Before(end); time.Sleep(50 * time.Millisecond) {
+		if n := runtime.NumGoroutine(); n != last {
+			last, since = n, time.Now()
+		} else if time.Since(since) >= 600*time.Millisecond {
+			settled = true
+			break
+		}
+	}
+	fds := 0
+	if es, err := os.ReadDir("/proc/self/fd"); err == nil {
+		fds = len(es) - 1 // the directory handle of this very listing
+	}
+	temp := 0
+	filepath.WalkDir(filepath.Join("jobs", c.spec.Conf.Job, "temp"), func(_ string, d os.DirEntry, err error) error {
+		if err == nil && !d.IsDir() {
+			temp++
+		}
+		return nil
+	})
+	c.event("footprint goroutines=%d fds=%d tempfiles=%d settled=%v", last, fds, temp, settled)
+	if os.Getenv("VERIF_FOOTPRINT_STACKS") != "" {
+		buf := make([]byte, 1<<20)
+		os.WriteFile("stacks.txt", buf[:runtime.Stack(buf, true)], 0o644)
+	}
 }
 
 // Points used by the engine itself.
@@ -314,6 +361,9 @@ func ChildMain() {
 	c.event("starting mode=%s conf=%s", spec.Mode, spec.Conf)
 	controler.Start()
 	c.event("started")
+	if spec.MinSpaceAfterStart > 0 {
+		config.Get().MinSpaceRequired = spec.MinSpaceAfterStart
+	}
 
 	switch spec.Mode {
 	case "signals":
@@ -332,6 +382,10 @@ func ChildMain() {
 		c.event("WatchSignals returned")
 		os.Exit(4)
 	default:
+		if spec.PauseProbeMS > 0 {
+			time.Sleep(time.Duration(spec.PauseProbeMS) * time.Millisecond)
+			c.event("pause-probe paused=%v", pause.IsPaused())
+		}
 		deadline := time.Duration(or(spec.DeadlineS, 60)) * time.Second
 		timeout := time.After(deadline)
 		status := "drained"
@@ -354,6 +408,9 @@ func ChildMain() {
 		}
 		c.event("work: %s finished=%d produced=%d added=%d deleted=%d", status, c.finished.Load(), c.produced.Load(), c.added.Load(), c.deleted.Load())
 		c.writeHits("hits-prestop.json")
+		if spec.Footprint {
+			c.footprint()
+		}
 		controler.Stop()
 		c.event("stop-returned")
 		c.writeHits("hits.json")
